@@ -33,7 +33,8 @@ import random
 import re
 import tempfile
 from collections import deque
-from concurrent.futures import ThreadPoolExecutor
+import multiprocessing
+from concurrent.futures import ProcessPoolExecutor, ThreadPoolExecutor
 from typing import Any, Dict, List, Tuple
 
 from ..core import Run, canon, use_repo
@@ -792,6 +793,13 @@ def _pairwise_probes(metas) -> List[Dict[str, Any]]:
 
 
 # ----------------------------------------------------------------------------------------------
+_EXEC = None        # the scenario executor, inherited by the forked worker processes
+
+
+def _exec_one(sc):
+    return _EXEC(sc)
+
+
 PIT_PAIRINGS = [("frf", "dildc"), ("fdil", "rfdc"), ("fdc", "rfdil")]
 
 
@@ -876,27 +884,49 @@ def run(tier: str, seed: int, replay=None) -> int:
     tlc.scratch()
     dots = {cfg: tempfile.mktemp(prefix=f"c11-{cfg}-", suffix=".dot", dir=tlc.scratch()) for _, cfg, _, _, _ in configs}
 
-    def design(job):
+    # TLC itself runs in background threads (plain tlc.run_tlc / tlc.validate_traces); the bookkeeping of the Run
+    # (R.design / R.validate: counters, expectations, coverage guards, verdict classification) is done afterwards in
+    # this thread on the finished results, through `_with_result`
+    def _with_result(name, res, fn):
+        orig = getattr(tlc, name)
+        setattr(tlc, name, lambda *a, **k: res)
+        try:
+            return fn()
+        finally:
+            setattr(tlc, name, orig)
+
+    def design_kw(job):
         cfg, cov = job
         if cov is None:     # sanity (non-vacuity): literal model of the pinned code / broadcast-from-first-block variant /
-            return R.design("NasControlMC", cfg, expect_ok=False, workers=2)    # identity-keyed partition ... must FAIL
-        return R.design("NasControlMC", cfg, dump_dot=dots[cfg], coverage=True,
-                        require_cov=[f"NasControlMC!{a}" for a in cov], workers=2)
+            return dict(workers=2)                                  # identity-keyed partition ... must FAIL
+        return dict(dump_dot=dots[cfg], coverage=True, workers=2)
+
+    def design_book(job, res):
+        cfg, cov = job
+        if cov is None:
+            return _with_result("run_tlc", res, lambda: R.design("NasControlMC", cfg, expect_ok=False, workers=2))
+        return _with_result("run_tlc", res, lambda: R.design(
+            "NasControlMC", cfg, dump_dot=dots[cfg], coverage=True,
+            require_cov=[f"NasControlMC!{a}" for a in cov], workers=2))
 
     jobs = [(cfg, cov) for _, cfg, _, _, cov in configs] + [(c, None) for c in sanity]
-    dex = ThreadPoolExecutor(max_workers=5)
-    dfuts = [dex.submit(design, j) for j in jobs]
+    dex = ThreadPoolExecutor(max_workers=8)
+    dfuts = [dex.submit(tlc.run_tlc, "NasControlMC", j[0], **design_kw(j)) for j in jobs]
     traces: List[Dict[str, Any]] = []
-    vex = ThreadPoolExecutor(max_workers=1)     # a single background thread lets TLC validate finished parts meanwhile
+    vex = ThreadPoolExecutor(max_workers=3)     # TLC validates finished parts while the next ones are executed
     vfuts = []
 
+    # scenarios are independent of each other (fresh model, own seeds): executed by a few single-threaded processes
+    global _EXEC
+    _EXEC = execute
+    pex = ProcessPoolExecutor(max_workers=4, mp_context=multiprocessing.get_context("fork"))
+
     def run_part(part_s):
-        part_t = [execute(sc) for sc in part_s]
+        part_t = list(pex.map(_exec_one, part_s, chunksize=2))
         scen.extend(part_s)
         traces.extend(part_t)
-        vfuts.append(vex.submit(R.validate, "NasControlTrace", "NasControlTrace", part_t, part_s,
-                                nontrivial=lambda s: len(s["acts"]) > 0, key=_key,
-                                label=f"part {len(vfuts) + 1}: {part_s[0]['src']} ...", chunk=1000, workers=8))
+        vfuts.append((part_s, part_t, vex.submit(tlc.validate_traces, "NasControlTrace", "NasControlTrace", part_t,
+                                                 chunk=1000, workers=4)))
 
     def interleave(xs):     # the first reported violations then show every kind of model
         by_kind = {k: [s for s in xs if s["kind"] == k] for k in ("pit", "mps", "sn")}
@@ -906,7 +936,7 @@ def run(tier: str, seed: int, replay=None) -> int:
     try:
         # 2. code -> spec (while TLC works on the design configs): random sequences (model-level and per-layer calls
         #    mixed, a copy of the model somewhere) and the pairwise heterogeneity probes
-        n_rand = 40 if tier == "quick" else 700
+        n_rand = 32 if tier == "quick" else 700
         rl = 14 if tier == "quick" else 30
         rvars = {"pit": ["tcn", "cnn2d"], "mps": ["layer", "channel", "channel0"], "sn": ["std"]}
         if tier != "quick":
@@ -928,7 +958,7 @@ def run(tier: str, seed: int, replay=None) -> int:
             run_part(free[lo:lo + fstep])
 
         # 3. spec -> code: walks covering every edge, on every model variant of the configuration
-        results = [f.result() for f in dfuts]
+        results = [design_book(j, f.result()) for j, f in zip(jobs, dfuts)]
         edges_total = 0
         graph_info = {}
         walks_s: List[Dict[str, Any]] = []
@@ -966,11 +996,15 @@ def run(tier: str, seed: int, replay=None) -> int:
         step = (len(walks_s) + nparts - 1) // nparts
         for lo in range(0, len(walks_s), step):
             run_part(walks_s[lo:lo + step])
-        for f in vfuts:
-            f.result()
+        for n, (part_s, part_t, f) in enumerate(vfuts):
+            res = f.result()
+            _with_result("validate_traces", res, lambda: R.validate(
+                "NasControlTrace", "NasControlTrace", part_t, part_s, nontrivial=lambda s: len(s["acts"]) > 0, key=_key,
+                label=f"part {n + 1}: {part_s[0]['src']} ...", chunk=1000, workers=4))
     finally:
         dex.shutdown(wait=True)
         vex.shutdown(wait=True)
+        pex.shutdown(wait=True)
     n_graph = sum(1 for s in scen if s["src"] not in ("random", "probe"))
     n_het = sum(1 for s in scen if s["hetero"])
     perlayer = ("lflag", "lupd", "lsel")
